@@ -308,6 +308,15 @@ class DataFrame(metaclass=_FrameMeta):
     def groupby(self, by, as_index=True, sort=True, dropna=True, **kw):
         return _GroupBy(self, [by] if isinstance(by, str) else list(by), as_index, sort, dropna)
 
+    def to_csv(self, path_or_buf=None, sep=",", header=True, index=True, **kw):
+        """contract: a CSV file written with a header line and read back with the same separator reproduces the column names and the cell
+        values (numbers as numbers, text as text); float formatting / parsing is outside the model"""
+        if not isinstance(path_or_buf, str):
+            raise EngineUnsupported("to_csv to a buffer")
+        if header is not True:
+            raise EngineUnsupported("to_csv(header=%r)" % (header,))
+        CSV_STORE[path_or_buf] = (self.copy(), sep, bool(index))
+
     def itertuples(self, index=True):
         for i in range(len(self)):
             yield ((i,) if index else ()) + tuple(self._cols[n][i] for n in self._names)
@@ -401,8 +410,27 @@ def concat(objs, axis=0, ignore_index=False, **kw):
     return DataFrame({nm: numpy.concatenate([o._cols[nm] for o in objs]) for nm in names})
 
 
+CSV_STORE = {}
+
+
+def read_csv(path, sep=",", header="infer", **kw):
+    if path not in CSV_STORE:
+        raise FileNotFoundError(path)
+    df, sep0, index = CSV_STORE[path]
+    if sep != sep0:
+        raise EngineUnsupported("read_csv with another separator than the file was written with")
+    if header not in (0, "infer"):
+        raise EngineUnsupported("read_csv(header=%r)" % (header,))
+    out = df.copy()
+    if index:
+        new = DataFrame({"Unnamed: 0": numpy.arange(len(df))})
+        return concat([new, out], axis=1)
+    return out
+
+
 class _Module:
     NA = None
+    read_csv = staticmethod(read_csv)
     DataFrame = DataFrame
     Series = Series
     Index = Index
